@@ -98,6 +98,7 @@ return caught, s1, ok2, type(m2), coroutine.status(co)`, "registry overflow|dead
 	{"C14", "set-with-escaped-punctuation-before-a-dash", `local function m(s, p) return (s:find(p)) ~= nil end return m("-", "[%.-_]"), m(".", "[%.-_]"), m("_", "[%.-_]"), m("A", "[%.-_]"), m("0", "[%.-_]"), m("-", "[%--x]"), m("a", "[%--x]"), m("b", "[%a-z]") , m("-", "[%a-]"), m("+", "[%+-%.]")`, "true|true|true|false|false|true|false|true|true|true", nil},
 	{"C18", "maxn-ignores-cleared-keys", `local t = {1, 2, 3} t[7.5] = "x" t[7.5] = nil t[2^27] = "y" t[2^27] = nil t[-3] = "z" local u = {} u[7.5] = 1 local w = {} w[2^27] = 1 w[2^27] = nil w[9.25] = 2 return table.maxn(t), table.maxn({}), table.maxn(u), table.maxn(w)`, "3|0|7.5|9.25", nil},
 	{"C18", "remove-from-a-list-emptied-by-assignment", `local t = {1, 2, 3} t[3] = nil t[2] = nil t[1] = nil local u = {1, 2} u[2] = nil return select("#", table.remove(t)), select("#", table.remove(t, nil)), #t, table.remove(u), select("#", table.remove(u)), #u`, "0|0|0|1|0|0", nil},
+	{"C19", "read-by-count-beyond-65536", `local f = io.open("$F", "w") for i = 1, 20 do f:write(("%05d"):format(i):rep(2000)) end f:close() f = io.open("$F") local a = f:read(65536) local p1 = f:seek() local b = f:read(65537) local p2 = f:seek() f:seek("set", 1) local c = f:read(131073) local p3 = f:seek() local d = f:read(300000) local e = f:read(1) f:close() return #a, p1, #b, p2, #c, p3, c:sub(-5), #d, e`, "65536|65536|65537|131073|131073|131074|40001|68926|nil", nil},
 	// eighth batch
 	{"C19", "read-format-must-be-a-number-or-a-string", `local f = io.open("$F") local a, b, c = pcall(f.read, f, true), pcall(f.read, f, nil), pcall(f.read, f, {}) local d = f:read(2, "*l") f:close() return a, b, c, d`, "false|false|false|01", nil},
 	{"C19", "io.lines-on-a-closed-default-input-raises-at-once", `io.input("$F") io.close(io.input()) local closed = pcall(io.lines) io.input("$F") local open = pcall(io.lines) return closed, open`, "false|true", nil},
